@@ -29,6 +29,7 @@ def main():
             b = sh([PY, "equiv.py"], cwd=wt)
             da, db = a.stdout.strip().splitlines()[-1:] , b.stdout.strip().splitlines()[-1:]
             same = a.returncode == 0 and b.returncode == 0 and da == db and da
+            sh(["git", "clean", "-fdxq"], cwd=wt)            # whatever equiv.py left behind must not disturb the test run
             rb = sh([PY, os.path.join(V, "tools", "baseline_check.py"), wt], timeout=1800)
             ok = bool(same) and rb.returncode == 0
             print("%s %s: digests equal=%s baseline_ok=%s -> %s" % (pid, name, bool(same), rb.returncode == 0, "CONFIRMED" if ok else "NOT CONFIRMED"))
